@@ -249,6 +249,84 @@ def mut_rename(src):
     return src[:a] + seg.replace("other_txn", "reader") + src[b:]
 
 
+# ---- twin audit (same-typed names written for each other, swapped argument order / tuple components)
+def mut_abs_uses_relative_context(src):
+    """(t1) contract_checks_txn_at_absolute_index asks relative_context (twin methods int -> context)"""
+    return replace_once(
+        src,
+        "        if not checks_field(function.transaction_context(block).absolute_context(absolute_index)):\n",
+        "        if not checks_field(function.transaction_context(block).relative_context(absolute_index)):\n",
+    )
+
+
+def mut_rel_uses_absolute_context(src):
+    """(t2) contract_checks_using_relative_index asks absolute_context (twin methods int -> context)"""
+    return replace_once(
+        src,
+        "        if not checks_field(function.transaction_context(block).relative_context(offset)):\n",
+        "        if not checks_field(function.transaction_context(block).absolute_context(offset)):\n",
+    )
+
+
+def mut_abs_loop_calls_relative(src):
+    """(t3) the absolute-index loop calls contract_checks_using_relative_index on the logic-sig (twin functions)"""
+    return replace_once(
+        src,
+        "                    if other_txn.logic_sig is not None and contract_checks_txn_at_absolute_index(\n",
+        "                    if other_txn.logic_sig is not None and contract_checks_using_relative_index(\n",
+    )
+
+
+def mut_abs_loop_own_logic_sig(src):
+    """(t4) the absolute-index loop asks the logic-sig of txn itself (twin variables txn / other_txn)"""
+    return replace_once(
+        src,
+        "                    if other_txn.logic_sig is not None and contract_checks_txn_at_absolute_index(\n                        other_txn.logic_sig, checks_field, txn.absoulte_index\n",
+        "                    if txn.logic_sig is not None and contract_checks_txn_at_absolute_index(\n                        txn.logic_sig, checks_field, txn.absoulte_index\n",
+    )
+
+
+def mut_abs_loop_other_index(src):
+    """(t5) the absolute-index loop asks for the index of other_txn (twin variables txn / other_txn)"""
+    return replace_once(
+        src,
+        "                        other_txn.logic_sig, checks_field, txn.absoulte_index\n",
+        "                        other_txn.logic_sig, checks_field, other_txn.absoulte_index\n",
+    )
+
+
+def mut_stateful_records_logic_sig(src):
+    """(t6) STATEFULL: the recorded contract is the logic-sig (twin attributes of type Optional[Function])"""
+    return replace_once(
+        src,
+        "                if txn.application is not None:\n                    vulnerable_transactions[txn] = [txn.application]\n",
+        "                if txn.logic_sig is not None:\n                    vulnerable_transactions[txn] = [txn.logic_sig]\n",
+    )
+
+
+def mut_items_pair_swapped(src):
+    """(a1) for (offset, other_txn) in ...items()"""
+    return replace_once(
+        src,
+        "            for (other_txn, offset) in group_txn.group_relative_indexes[txn].items():\n",
+        "            for (offset, other_txn) in group_txn.group_relative_indexes[txn].items():\n",
+    )
+
+
+def mut_validated_args_swapped(src):
+    """(a2) validated_in_block(function, block, ..)"""
+    return replace_once(
+        src,
+        "        if not validated_in_block(block, function, checks_field, absolute_index):\n",
+        "        if not validated_in_block(function, block, checks_field, absolute_index):\n",
+    )
+
+
+def mut_fill_offset_sign(src):
+    """(a3, transactions.py) fill: the stored offset is negated (the offset as seen from the other side)"""
+    return replace_once(src, FILL_ASSIGN, "            group.group_relative_indexes[other_txn][txn] = -offset\n")
+
+
 MUTATIONS = [
     ("(i) `checked` initialised once per group (C13-seed1)", UTILS, mut_checked_once),
     ("(ii) fill: group_relative_indexes[other] = {txn: offset}", TX, mut_fill_overwrites),
@@ -276,6 +354,15 @@ MUTATIONS = [
     ("(s7) stored dict carried across groups", UTILS, mut_stored_dict_carried),
     ("(s8) while statement", UTILS, mut_while),
     ("(e1) EQUIVALENT: loop variable renamed", UTILS, mut_rename),
+    ("(t1) TWIN absolute helper asks relative_context", UTILS, mut_abs_uses_relative_context),
+    ("(t2) TWIN relative helper asks absolute_context", UTILS, mut_rel_uses_absolute_context),
+    ("(t3) TWIN absolute loop calls the relative helper", UTILS, mut_abs_loop_calls_relative),
+    ("(t4) TWIN absolute loop asks txn's own logic-sig", UTILS, mut_abs_loop_own_logic_sig),
+    ("(t5) TWIN absolute loop asks for other_txn's index", UTILS, mut_abs_loop_other_index),
+    ("(t6) TWIN STATEFULL records the logic-sig", UTILS, mut_stateful_records_logic_sig),
+    ("(a1) PAIR for (offset, other_txn) in ..items()", UTILS, mut_items_pair_swapped),
+    ("(a2) ARGS validated_in_block(function, block, ..)", UTILS, mut_validated_args_swapped),
+    ("(a3) SIGN fill: stores -offset", TX, mut_fill_offset_sign),
 ]
 EQUIVALENT = {"(e1) EQUIVALENT: loop variable renamed"}
 REQUIRED = 5
